@@ -221,8 +221,10 @@ def ipv6_address_unwrap(ipv6_address: str) -> str:
     """
     try:
         addr_bytes = socket.inet_pton(socket.AF_INET6, ipv6_address)
-    except OSError:
+    except (OSError, ValueError):
         # This happens when the string does not represent a valid IPv6 address.
+        # A ValueError is raised for strings that cannot be passed to inet_pton
+        # at all (e.g. because they contain a null character).
         return ipv6_address
     if addr_bytes.startswith(
         b"\x00\x00\x00\x00\x00\x00\x00\x00\x00\x00\xff\xff"
